@@ -34,7 +34,10 @@ def run(data):
         row["name"] = u.name
         row["is_one"] = u is One
         row["doc"] = json.loads(json.dumps(u, cls=MeasuredJSONEncoder))      # what a reader of the JSON text sees
-        row["doc_plain"] = u.__json__()                                         # the dictionary handed to pydantic / SQL
+        try:
+            row["doc_plain"] = json.loads(json.dumps(u.__json__()))              # the dictionary handed to pydantic / SQL: plain JSON values only
+        except TypeError as ex:
+            row["doc_plain"] = None; row["doc_plain_error"] = str(ex)[:120]
         rows.append(row)
     by_name = {n: index[id(u)] for n, u in Unit._by_name.items() if id(u) in index}
     out = {"table": rows, "by_name": by_name, "nd": len(Dimension._fundamental[0].exponents), "one_name": One.name, "results": []}
